@@ -295,8 +295,18 @@ class Run:
         return out
 
 
-def run_events(events):
-    r = Run()
+def fresh_cf():
+    """A NEW Crazyflie object: its first session has the packet_received callbacks in the order of __init__
+    (_check_for_initial_packet_cb immediately before _check_for_answers); later sessions re-add the former at the end."""
+    from cflib.crazyflie import Crazyflie
+    logging.getLogger('cflib').setLevel(logging.CRITICAL)
+    cf = Crazyflie()
+    cf.incoming.is_alive = lambda: True
+    return cf
+
+
+def run_events(events, fresh=False):
+    r = Run(cf=fresh_cf() if fresh else None)
     try:
         for i, ev in enumerate(events):
             r.ev_index = i
